@@ -22,6 +22,7 @@ import (
 
 	"k8s.io/apimachinery/pkg/util/net"
 	"k8s.io/apimachinery/pkg/util/proxy"
+	"k8s.io/apiserver/pkg/authentication/user"
 	"k8s.io/apiserver/pkg/endpoints/request"
 	"k8s.io/client-go/transport"
 	"k8s.io/klog"
@@ -70,6 +71,13 @@ func (rt *dynamicImpersonatingRoundTripper) WrapRequest(req *http.Request) (*htt
 		klog.Infof("    Extra: %s", extraToString(requestor.GetExtra()))
 	}
 
+	// an HTTP header field value cannot carry white space at its ends or control
+	// characters: refuse to forward rather than let the upstream act as a
+	// user, group or extra value that differs from the authenticated one
+	if err := checkImpersonationValues(requestor); err != nil {
+		return nil, err
+	}
+
 	req = net.CloneRequest(req)
 	// drop every Impersonate-* header sent by the client, the upstream must
 	// only see the impersonation headers generated below
@@ -90,6 +98,38 @@ func (rt *dynamicImpersonatingRoundTripper) WrapRequest(req *http.Request) (*htt
 	}
 
 	return req, nil
+}
+
+// headerValueSurvives reports whether v arrives unchanged as an HTTP header field value.
+func headerValueSurvives(v string) bool {
+	if n := len(v); n > 0 && (v[0] == ' ' || v[0] == '\t' || v[n-1] == ' ' || v[n-1] == '\t') {
+		return false
+	}
+	for i := 0; i < len(v); i++ {
+		if b := v[i]; (b < ' ' && b != '\t') || b == 0x7f {
+			return false
+		}
+	}
+	return true
+}
+
+func checkImpersonationValues(u user.Info) error {
+	if !headerValueSurvives(u.GetName()) {
+		return fmt.Errorf("user name %q cannot be carried by an impersonation header", u.GetName())
+	}
+	for _, group := range u.GetGroups() {
+		if !headerValueSurvives(group) {
+			return fmt.Errorf("group %q of user %q cannot be carried by an impersonation header", group, u.GetName())
+		}
+	}
+	for k, vv := range u.GetExtra() {
+		for _, v := range vv {
+			if !headerValueSurvives(v) {
+				return fmt.Errorf("extra %q=%q of user %q cannot be carried by an impersonation header", k, v, u.GetName())
+			}
+		}
+	}
+	return nil
 }
 
 func (rt *dynamicImpersonatingRoundTripper) RoundTrip(req *http.Request) (*http.Response, error) {
